@@ -14,6 +14,9 @@ def main(tier):
     jobs += [('audio', 'VerifApuPower', {'reg': r}) for r in range(20)]
     jobs += [('audio', 'VerifWaveRam', {'reg': r}) for r in range(23)]
     ck.run(jobs, timeout_ms=300000)
+    # NR52's status bits are the channel flags and turn on only by a trigger (C19's lemma, for the NR52 read-back claimed here)
+    ck.run([('audio', 'VerifApuStatusWrite', {'ch': k, 'reg': r}) for k in (1, 2, 3, 4) for r in range(21)], timeout_ms=300000,
+           only=r'^(status-bit-is-channel-flag|on-only-by-trigger|on-only-with-dac)$')
     ck.finish(explanation='one-step inductive checks of the sound register read-back masks, the frame condition of writes and machine cycles, APU power off/on and wave RAM')
 
 
